@@ -1208,6 +1208,39 @@ def m_hashmap_insert(e, st, fr, t, args):
     return NONE
 
 
+def m_hashset_insert(e, st, fr, t, args):
+    """HashSet<K> = the HashMap model with unit values; insert returns whether the key is new"""
+    ref, mp = _map_at(e, st, args[0])
+    if mp is None:
+        return NotImplemented
+    k = _key_repr(e, st, args[1])
+    keys = mp.extra['keys']
+    if k in keys:
+        return VScalar(False)
+    _store(e, st, ref, VAgg(name='HashMap', fields={**mp.fields, ('f', len(keys)): UNIT}, extra={'keys': keys + (k,)}))
+    return VScalar(True)
+
+
+def m_hashset_contains(e, st, fr, t, args):
+    ref, mp = _map_at(e, st, args[0])
+    if mp is None:
+        return NotImplemented
+    return VScalar(_key_repr(e, st, args[1]) in mp.extra['keys'])
+
+
+def m_hashset_remove(e, st, fr, t, args):
+    ref, mp = _map_at(e, st, args[0])
+    if mp is None:
+        return NotImplemented
+    k = _key_repr(e, st, args[1])
+    keys = mp.extra['keys']
+    if k not in keys:
+        return VScalar(False)
+    i = keys.index(k)
+    _store(e, st, ref, VAgg(name='HashMap', fields={**mp.fields, ('f', i): TOMB}, extra={'keys': keys[:i] + (None,) + keys[i + 1:]}))
+    return VScalar(True)
+
+
 def m_hashmap_remove(e, st, fr, t, args):
     ref, mp = _map_at(e, st, args[0])
     if mp is None:
@@ -1483,6 +1516,10 @@ def install(eng: Engine, resolver):
     add(r'^Option::<.*>::cloned$', m_option_cloned)
     add(r'^Option::<.*>::(unwrap|expect)$', m_option_unwrap)
     add(r'^<HashMap<.*> as Default>::default$|^HashMap::<.*>::new$', m_hashmap_new)
+    add(r'^<HashSet<.*> as Default>::default$|^HashSet::<.*>::new$', m_hashmap_new)
+    add(r'^HashSet::<.*>::insert$', m_hashset_insert)
+    add(r'^HashSet::<.*>::contains::<', m_hashset_contains)
+    add(r'^HashSet::<.*>::remove::<', m_hashset_remove)
     add(r'^HashMap::<.*>::get::<', m_hashmap_get(False))
     add(r'^HashMap::<.*>::get_mut::<', m_hashmap_get(True))
     add(r'^HashMap::<.*>::insert$', m_hashmap_insert)
